@@ -62,6 +62,46 @@ def unqualified_pointers(text):
     return bad
 
 
+def _text_checks(t, phase, res, bad):
+    from xobjects.specialize_source import specialize_source
+
+    for _ in (0,):
+        try:
+            src = class_source(t)
+            forms = {tg: specialize_source(src, specialize_for=tg) for tg in TARGETS}
+        except Exception as e:
+            bad("C15.specialise", "raises:" + common.exc_failure(e), t, repr(e), phase=phase)
+            return
+        res.cases += 1
+        ref = tokens(forms["cpu_serial"])
+        for tg in TARGETS[1:]:
+            res.transitions += 1
+            res.events["tokens"] += 1
+            tk = tokens(forms[tg])
+            if tk != ref:
+                k = next((i for i, (a, b) in enumerate(zip(tk, ref)) if a != b), min(len(tk), len(ref)))
+                bad("C15.same-computation", "token-streams-differ", t, "%s vs cpu_serial at token %d: ...%s... vs ...%s..." % (tg, k, " ".join(tk[max(0, k - 6) : k + 6]), " ".join(ref[max(0, k - 6) : k + 6])), target=tg, phase=phase)
+        res.transitions += 1
+        res.events["global-qualifier"] += 1
+        up = unqualified_pointers(forms["opencl"])
+        if up:
+            bad("C15.global-qualifier", "pointer-without-__global", t, "; ".join(up[:4]), target="opencl", phase=phase)
+        if "__global" in forms["cuda"].replace("__global__", "") or "__kernel" in forms["cuda"]:
+            bad("C15.qualifiers", "opencl-keyword-in-cuda", t, "", target="cuda", phase=phase)
+        # every accessor is a device function in the CUDA form and static inline in the CPU forms
+        heads = [l for l in forms["cuda"].splitlines() if re.match(r"^\s*[\w\s\*]+\w+\([^;]*\)\{\s*$", l) and not l.strip().startswith(("typedef", "enum", "return", "#", "switch", "if", "for"))]
+        nodev = [l.strip() for l in heads if "__device__" not in l]
+        if nodev:
+            bad("C15.qualifiers", "cuda-function-without-__device__", t, "; ".join(nodev[:3]), target="cuda", phase=phase)
+        for tg in ("cpu_serial", "cpu_openmp"):
+            if re.search(r"__global|__kernel|__device__", forms[tg]):
+                bad("C15.qualifiers", "gpu-keyword-in-cpu", t, "", target=tg, phase=phase)
+        for tg in TARGETS:
+            if re.search(r"/\*gpu(kern|fun|glmem)\*/|/\*restrict\*/", forms[tg]):
+                bad("C15.qualifiers", "placeholder-left", t, "", target=tg, phase=phase)
+        res.states += 1
+
+
 def run_shard(types, tier, seed):
     from xobjects.specialize_source import specialize_source
 
@@ -73,37 +113,20 @@ def run_shard(types, tier, seed):
         f.update(extra)
         res.violations.append(common.violation(oracle, failure, f, dict(type=t, type_str=xt.show(t) if t else None, **extra), detail))
 
+    def text_checks(t, phase):
+        """(i) + qualifier rule for one type; `phase` says in which process state the source was generated"""
+        return _text_checks(t, phase, res, bad)
+
     # (i) + qualifier rule, per type
     for t in types:
-        try:
-            src = class_source(t)
-            forms = {tg: specialize_source(src, specialize_for=tg) for tg in TARGETS}
-        except Exception as e:
-            bad("C15.specialise", "raises:" + common.exc_failure(e), t, repr(e))
-            continue
-        res.cases += 1
-        ref = tokens(forms["cpu_serial"])
-        for tg in TARGETS[1:]:
-            res.transitions += 1
-            res.events["tokens"] += 1
-            tk = tokens(forms[tg])
-            if tk != ref:
-                k = next((i for i, (a, b) in enumerate(zip(tk, ref)) if a != b), min(len(tk), len(ref)))
-                bad("C15.same-computation", "token-streams-differ", t, "%s vs cpu_serial at token %d: ...%s... vs ...%s..." % (tg, k, " ".join(tk[max(0, k - 6) : k + 6]), " ".join(ref[max(0, k - 6) : k + 6])), target=tg)
-        res.transitions += 1
-        res.events["global-qualifier"] += 1
-        up = unqualified_pointers(forms["opencl"])
-        if up:
-            bad("C15.global-qualifier", "pointer-without-__global", t, "; ".join(up[:4]), target="opencl")
-        if "__global" in forms["cuda"].replace("__global__", "") or "__kernel" in forms["cuda"]:
-            bad("C15.qualifiers", "opencl-keyword-in-cuda", t, "", target="cuda")
-        for tg in ("cpu_serial", "cpu_openmp"):
-            if re.search(r"__global|__kernel|__device__", forms[tg]):
-                bad("C15.qualifiers", "gpu-keyword-in-cpu", t, "", target=tg)
-        for tg in TARGETS:
-            if re.search(r"/\*gpu(kern|fun|glmem)\*/|/\*restrict\*/", forms[tg]):
-                bad("C15.qualifiers", "placeholder-left", t, "", target=tg)
-        res.states += 1
+        text_checks(t, "fresh")
+    # ... and again after a real ContextCpu kernel build in this process: generated text must not depend on what was built before
+    try:
+        cseam.build_module(types[:1])
+        for t in types:
+            text_checks(t, "after-cpu-build")
+    except Exception as e:
+        res.skipped["cffi-build(C02's business):" + type(e).__name__] += 1
     # (ii) compile acceptance per batch
     work = tempfile.mkdtemp(prefix="xoverif-c15-", dir=os.getcwd())
     try:
